@@ -41,7 +41,11 @@ RULE = ('BLIF/bench AST + text generated together; Output trace of the imported 
         'of C12_vector_ports; (4c) import SESSIONS: sequences of imports in one process whose clock input, clock-buffer alias '
         '(.names clk c) / custom clock_name and data inputs are drawn from one pool of names (clk c ck phi gclk x), so a '
         'name registered as a clock by one import is plain data in a later one; each import is compared on its own '
-        '(the semantics has no history) and a failing case replays with the list of earlier imports; (5) random .bench netlists with 2-ary and n-ary gates and DFFs. '
+        '(the semantics has no history) and a failing case replays with the list of earlier imports; (4d) reader x net-kind mix: covers, latch D, flop D/E/S/R pins and .subckt actuals read '
+        'inputs, internal nets, state, sub-circuit outputs and (with a bias) top-level OUTPUTS, scalar and vector bits, '
+        'merge in {True, False}; (5b) .bench netlists renamed with names hostile to the importer (<x>_reg, <x>_i, tmp<N> '
+        'around the live temporary counter, const_*, gate names/keywords, clk), failing category isolated by re-import; '
+        '(5) random .bench netlists with 2-ary and n-ary gates and DFFs. '
         'A case is distinct by its AST and non-trivial when its outputs depend on an input or on state '
         '(covers: the function is not constant, except the two constant covers themselves).')
 IMPORTS = ('From Coq Require Import ZArith List Bool String.\n'
@@ -996,6 +1000,108 @@ def run_sessions(ctx):
             pend.append(run_blif_case(ctx, 'session', (sidx, i), models, inss, True, sample=(sidx == 0 and i == 3)))
     settle_blif(ctx, pend, 'c12sess')
 
+
+# ----------------------------------------------------------------------------- family 4d: every reader x every net kind
+MIX_CELLS = ('$_DFF_P_', '$_DFFE_PN_', '$_DFF_PP1_', '$_DFFSR_PPP', '$_SDFF_PN0_', '$_SDFFE_PP1N_', '$_SDFFCE_PN1P_')
+
+
+def gen_mix(rng, i):
+    """Covers, latches (D), flip-flop cells (D/E/S/R pins) and .subckt actuals each read nets of every kind --
+    top-level inputs (scalar and vector bits), internal nets, state outputs, sub-circuit outputs and, with a bias,
+    top-level OUTPUTS (scalar and vector bits).  Shift registers with exported taps and outputs feeding
+    sub-circuits arise as instances."""
+    ins = ['a', 'b'] + (['v[0]', 'v[1]'] if rng.random() < 0.5 else [])
+    pending = ['o%d' % k for k in range(rng.randint(2, 4))]
+    w = rng.choice((0, 2, 3))
+    pending += ['y[%d]' % k for k in range(w)]
+    rng.shuffle(pending)
+    leaves = [gen_leaf(rng, 'leaf%d' % j, 10 + j, vec_formals=(j == 1)) for j in range(rng.randint(1, 2))]
+    pool, outs, cmds, stats = list(ins), [], [], []
+    steps = len(pending) + rng.randint(0, 3)
+
+    def pick(reader):
+        if outs and rng.random() < 0.55:
+            s = rng.choice(outs)
+            stats.append((reader, 'vector-output-bit' if '[' in s else 'scalar-output'))
+        else:
+            s = rng.choice(pool)
+            stats.append((reader, 'input' if s in ins else ('output' if s in outs else 'internal')))
+        return s
+
+    def new_net(force):
+        if pending and (force or rng.random() < 0.6):
+            nm = pending.pop()
+            outs.append(nm)
+        else:
+            fresh[0] += 1
+            nm = 'n%d' % fresh[0]
+        return nm
+
+    fresh = [0]
+    step = 0
+    while step < steps or pending:
+        force = (steps - step) <= len(pending)
+        kind = rng.choice(('cover', 'latch', 'flop', 'subckt', 'flop', 'latch'))
+        made = []
+        if kind == 'cover':
+            srcs = []
+            for _ in range(rng.randint(1, 3)):
+                x = pick('cover-input')
+                if x not in srcs:
+                    srcs.append(x)
+            nm = new_net(force)
+            cmds.append(('names', srcs + [nm], rand_cover(rng, len(srcs))))
+            made.append(nm)
+        elif kind == 'latch':
+            d = pick('latch-D')
+            nm = new_net(force)
+            cmds.append(('latch', d, nm, rng.choice(INIT_CODES)))
+            made.append(nm)
+        elif kind == 'flop':
+            cell = rng.choice(MIX_CELLS)
+            info = cell_info(cell)
+            d = pick('flop-D')
+            e = pick('flop-E') if info['en'] is not None else None
+            st = pick('flop-S') if info['set'] is not None else None
+            r = pick('flop-R') if info['rst'] is not None else None
+            nm = new_net(force)
+            cmds.append(('flop', cell, d, nm, e, st, r))
+            made.append(nm)
+        else:
+            leaf = rng.choice(leaves)
+            binds = [(f, pick('subckt-actual')) for f in leaf.inputs]
+            for f in leaf.outputs:
+                nm = new_net(force and len(pending) > 0)
+                binds.append((f, nm))
+                made.append(nm)
+            rng.shuffle(binds)
+            cmds.append(('subckt', leaf.name, binds))
+        pool.extend(made)
+        step += 1
+    rng.shuffle(cmds)
+    outs_decl = list(outs)
+    rng.shuffle(outs_decl)
+    return [Model('mix%d' % i, 1, ins, outs_decl, cmds)] + leaves, stats
+
+
+def run_mix(ctx):
+    n = 40 if ctx.tier == 'quick' else 600
+    pend = []
+    for i in range(n):
+        rng = ctx.sub_rng('mix', i)
+        models, stats = gen_mix(rng, i)
+        top = models[0]
+        for reader, kind in stats:
+            ctx.count('mix_reader_x_net', '%s<-%s' % (reader, kind))
+        ncyc = rng.randint(5, 8)
+        bits = [[rng.randint(0, 1) for _ in top.inputs] for _ in range(ncyc)]
+        pos = {nm: k for k, nm in enumerate(top.inputs)}
+        for merge in (True, False):
+            ig = port_groups(top.inputs, merge)
+            inss = [[sum(row[pos[nm]] << j for j, nm in enumerate(names)) for _, names in ig] for row in bits]
+            pend.append(run_blif_case(ctx, 'mix', i, models, inss, merge, sample=(i == 1 and merge)))
+    settle_blif(ctx, pend, 'c12mix')
+
 # ----------------------------------------------------------------------------- family 5: ISCAS .bench
 NARY = ('AND', 'OR', 'NAND', 'NOR', 'XOR')
 
@@ -1175,6 +1281,155 @@ def run_bench(ctx):
                                dict(p['rep'], coq_model=model[1], got=p['got']))
 
 
+# ----------------------------------------------------------------------------- family 5b: .bench net names
+# The function of a netlist does not depend on what its nets are called.  Names are drawn from a pool that is
+# hostile relative to the importer's own naming: <x>_reg / <x>_i / <x>_next / <x>[0] for another net x, PyRTL's
+# temporaries tmp<N> (N around the live counter, and small N), const_*, gate names and keywords, clk.
+KEYWORD_NAMES = ['DFF', 'AND', 'NAND', 'OR', 'NOR', 'XOR', 'NOT', 'BUFF', 'INPUT', 'OUTPUT', 'reg', 'next', 'w']
+
+
+def live_tmp_counter():
+    pyrtl.reset_working_block()
+    return int(pyrtl.WireVector(bitwidth=1).name[3:])
+
+
+def name_plan(rng, b):
+    """signal -> (category, parameter); applied by apply_names right before an import"""
+    sigs = []
+    for x in b['inputs'] + [d for d, _, _ in b['gates']]:
+        if x not in sigs:
+            sigs.append(x)
+    rng.shuffle(sigs)
+    plan = {}
+    for k, x in enumerate(sigs):
+        r = rng.random()
+        if r < 0.25 or k == 0:
+            plan[x] = ('plain', None)
+        elif r < 0.45:
+            plan[x] = ('suffix_reg', rng.choice(sigs[:k]))
+        elif r < 0.55:
+            plan[x] = ('suffix', (rng.choice(sigs[:k]), rng.choice(('_i', '_next', '[0]', '_reg_reg', '_'))))
+        elif r < 0.70:
+            plan[x] = ('tmp', rng.randint(1, 40))
+        elif r < 0.75:
+            plan[x] = ('tmp_small', rng.randint(0, 30))
+        elif r < 0.83:
+            plan[x] = ('const', rng.choice(('const_0_0', 'const_1_1', 'const_%d_1' % rng.randint(0, 60), 'const_')))
+        elif r < 0.97:
+            plan[x] = ('keyword', rng.choice(KEYWORD_NAMES))
+        else:
+            plan[x] = ('clk', None)
+    return sigs, plan
+
+
+def apply_names(b, sigs, plan, only=None):
+    """rename the netlist; categories outside `only` keep their plain names"""
+    counter = live_tmp_counter()
+    ren, used = {}, set()
+    for x in sigs:
+        cat, par = plan[x]
+        if only is not None and cat not in only:
+            cat = 'plain'
+        if cat == 'plain':
+            nm = x
+        elif cat == 'suffix_reg':
+            nm = ren[par] + '_reg'
+        elif cat == 'suffix':
+            nm = ren[par[0]] + par[1]
+        elif cat == 'tmp':
+            nm = 'tmp%d' % (counter + par)
+        elif cat == 'tmp_small':
+            nm = 'tmp%d' % par
+        elif cat == 'const':
+            nm = par
+        elif cat == 'keyword':
+            nm = par
+        else:
+            nm = 'clk'
+        while nm in used or (nm in sigs and nm != x):
+            nm += '_'
+        used.add(nm)
+        ren[x] = nm
+    return {'inputs': [ren[x] for x in b['inputs']], 'outputs': [ren[x] for x in b['outputs']],
+            'gates': [(ren[d], g, [ren[y] for y in srcs]) for d, g, srcs in b['gates']]}, counter
+
+
+def bench_attempt(b, inss):
+    """-> (trace or None, error text)"""
+    try:
+        return impl_bench_run(bench_text(b), b, inss), None
+    except Exception as e:
+        return None, '%s: %s' % (type(e).__name__, ' '.join(str(e).split())[:160])
+
+
+def run_bench_names(ctx):
+    n = 80 if ctx.tier == 'quick' else 1500
+    pend = []
+    for i in range(n):
+        rng = ctx.sub_rng('bench-names', i)
+        plain = gen_bench(rng, nary=False)
+        if i % 4 == 0:     # a flop pipeline: every stage is a DFF reading the previous one
+            k = rng.randint(2, 4)
+            plain = {'inputs': ['G0', 'G1'], 'outputs': ['n0'],
+                     'gates': [('Q%d' % j, 'DFF', ['Q%d' % (j - 1) if j else 'G0']) for j in range(k)]
+                     + [('n0', rng.choice(NARY), ['Q%d' % (k - 1), 'G1'])]}
+            rng.shuffle(plain['gates'])
+        sigs, plan = name_plan(rng, plain)
+        nin = len(plain['inputs'])
+        inss = [[rng.randint(0, 1) for _ in range(nin)] for _ in range(8)]
+        expected = py_bench_run(plain, inss)
+        b, counter = apply_names(plain, sigs, plan)
+        cats = sorted({plan[x][0] for x in sigs} - {'plain'})
+        for c in cats:
+            ctx.count('bench_name_category', c)
+        text = bench_text(b)
+        got, err = bench_attempt(b, inss)
+        ctx.case(('bench-names', text), nontrivial=any(len({r[k] for r in expected}) > 1
+                                                        for k in range(len(b['outputs']))),
+                 sample={'family': 'bench-names', 'bench': text, 'outputs': got[:3] if got else err} if i == 1 else None)
+        if got != expected:
+            # which name category is responsible?  re-import with one category of hostile names at a time
+            plain_got, plain_err = bench_attempt(plain, inss)
+            reports = []
+            if plain_got == expected:
+                for c in cats:
+                    bc, cnt = apply_names(plain, sigs, plan, only=(c,))
+                    g, e1 = bench_attempt(bc, inss)
+                    if g != expected:
+                        reports.append(('iscas:net-names:' + c, bc, g, e1, cnt))
+                if not reports:
+                    reports.append(('iscas:net-names:combination', b, got, err, counter))
+            else:
+                reports.append(('iscas:trace' if plain_got is not None else 'iscas:rejected', b, got, err, counter))
+            for sig, bb, g, e1, cnt in reports:
+                what = ('input_from_iscas_bench: the imported function depends on how the nets are called (%s): %s'
+                        % (sig.split(':')[-1], e1 if g is None else 'trace differs from the .bench semantics'))
+                ctx.spec_violation(sig, what,
+                                   {'family': 'bench-names', 'bench': bench_text(bb),
+                                    'same_netlist_plain_names': bench_text(plain),
+                                    'inputs': inss, 'input_names': bb['inputs'], 'output_names': bb['outputs'],
+                                    'expected': expected, 'got': g if g is not None else e1,
+                                    'tmp_counter_before_import': cnt,
+                                    'note': 'tmp<N> names are chosen relative to the live temporary-name counter; '
+                                            'a replay in a fresh process needs N shifted accordingly',
+                                    'repro': 'pyrtl.input_from_iscas_bench(bench); Simulation.step per row'})
+            continue
+        pend.append({'expr': 'bench_case %d %s [%s]' % (
+            len(b['gates']) + 3, coq_bench(b), '; '.join('[' + '; '.join(map(str, r)) + ']' for r in inss)),
+            'got': got, 'expected': expected, 'rep': {'bench': text, 'inputs': inss}})
+    try:
+        res = ctx.coq_eval([p['expr'] for p in pend], IMPORTS, tag='c12bnames', shard=max(1, (len(pend) + 11) // 12), jobs=12)
+    except Exception as e:
+        ctx.model_mismatch('bench_case could not be evaluated: %s' % str(e)[-800:], {})
+        return
+    for p, r in zip(pend, res):
+        spec, model = (r[0], r[1]), r[2]
+        if not spec[0] or [list(x) for x in spec[1]] != p['expected']:
+            ctx.model_mismatch('Coq .bench semantics and the Python evaluator disagree', p['rep'])
+        if model is None or not model[0] or [list(x) for x in model[1]] != p['got']:
+            ctx.model_mismatch('input_from_iscas_bench and IO/Iscas.v import_bench disagree', p['rep'])
+
+
 def run(ctx):
     run_covers(ctx)
     run_latches(ctx)
@@ -1182,7 +1437,9 @@ def run(ctx):
     run_hier(ctx)
     run_vectors(ctx)
     run_sessions(ctx)
+    run_mix(ctx)
     run_bench(ctx)
+    run_bench_names(ctx)
 
 
 def replay(ctx, data):
